@@ -26,6 +26,28 @@ type Op struct {
 	Opaque uint32   `json:"opq,omitempty"`
 	Quiet  bool     `json:"quiet,omitempty"` // binary setq/addq/...
 	Raw    []byte   `json:"raw,omitempty"`
+	KeyB   []byte   `json:"keyb,omitempty"`  // binary-safe key (overrides Key)
+	KeysB  [][]byte `json:"keysb,omitempty"` // binary-safe keys (override Keys)
+}
+
+// K returns the key bytes of a single-key command.
+func (o Op) K() []byte {
+	if o.KeyB != nil {
+		return o.KeyB
+	}
+	return []byte(o.Key)
+}
+
+// KS returns the keys of a get.
+func (o Op) KS() [][]byte {
+	if o.KeysB != nil {
+		return o.KeysB
+	}
+	out := make([][]byte, len(o.Keys))
+	for i, k := range o.Keys {
+		out[i] = []byte(k)
+	}
+	return out
 }
 
 func (o Op) String() string {
@@ -72,37 +94,48 @@ func EncodeBinary(o Op) []byte {
 		return o.Raw
 	case "set", "add", "replace":
 		oc := binOp[o.Kind][b2i(o.Quiet)]
-		h := binHeader(oc, len(o.Key), 8, 8+len(o.Key)+len(o.Data), o.Opaque)
+		k := o.K()
+		h := binHeader(oc, len(k), 8, 8+len(k)+len(o.Data), o.Opaque)
 		h = binary.BigEndian.AppendUint32(h, o.Flags)
 		h = binary.BigEndian.AppendUint32(h, o.TTL)
-		h = append(h, o.Key...)
+		h = append(h, k...)
 		return append(h, o.Data...)
 	case "append", "prepend":
 		oc := binOp[o.Kind][b2i(o.Quiet)]
-		h := binHeader(oc, len(o.Key), 0, len(o.Key)+len(o.Data), o.Opaque)
-		h = append(h, o.Key...)
+		k := o.K()
+		h := binHeader(oc, len(k), 0, len(k)+len(o.Data), o.Opaque)
+		h = append(h, k...)
 		return append(h, o.Data...)
 	case "delete":
-		h := binHeader(0x04, len(o.Key), 0, len(o.Key), o.Opaque)
-		return append(h, o.Key...)
+		k := o.K()
+		h := binHeader(0x04, len(k), 0, len(k), o.Opaque)
+		return append(h, k...)
 	case "touch", "gat":
-		h := binHeader(binOp[o.Kind][0], len(o.Key), 4, 4+len(o.Key), o.Opaque)
+		k := o.K()
+		h := binHeader(binOp[o.Kind][0], len(k), 4, 4+len(k), o.Opaque)
 		h = binary.BigEndian.AppendUint32(h, o.TTL)
-		return append(h, o.Key...)
+		return append(h, k...)
 	case "noop", "version", "stats", "quit":
 		return binHeader(binOp[o.Kind][b2i(o.Quiet)], 0, 0, 0, o.Opaque)
-	case "get":
+	case "get", "gete":
 		var out []byte
-		for i, k := range o.Keys {
+		ks := o.KS()
+		for i, k := range ks {
 			oc := uint8(0x00)
+			if o.Kind == "gete" {
+				oc = 0x40
+			}
 			if i < len(o.Quiets) && o.Quiets[i] {
 				oc = 0x09
+				if o.Kind == "gete" {
+					oc = 0x41
+				}
 			}
 			h := binHeader(oc, len(k), 0, len(k), o.Opaque+uint32(i))
 			out = append(out, append(h, k...)...)
 		}
 		if o.Noop {
-			out = append(out, binHeader(0x0a, 0, 0, 0, o.Opaque+uint32(len(o.Keys)))...)
+			out = append(out, binHeader(0x0a, 0, 0, 0, o.Opaque+uint32(len(ks)))...)
 		}
 		return out
 	}
